@@ -133,3 +133,82 @@ class _tv:
 
     def __call__(self, name, path):
         return TVal.fresh(self.base)
+
+
+def node_contracts():
+    """The expression-tree nodes: which function name a node dispatches to
+    (operators by symbol or by alias), in which order it holds its operands,
+    and what the leaf nodes evaluate to (C02 tree shape, C04, C11 order)."""
+    cs = []
+    E = 'yaql.language.expressions.'
+
+    def c(target, **kw):
+        kw.setdefault('serves', ('C02', 'C04', 'C11'))
+        kw.setdefault('native', False)
+        x = Contract(E + target, **kw)
+        cs.append(x)
+        return x
+    for alias in (True, False):
+        nm = '"*" + alias' if alias else '"#operator_" + op'
+        c('BinaryOperator.__init__', name='expressions.BinaryOperator/%s' % (
+            'alias' if alias else 'symbol'),
+          params=dict(self=obj(E + 'BinaryOperator'), op=TStr, obj1=TVal,
+                      obj2=TVal, alias=TStr if alias else None),
+          ensures=['self.name == %s' % nm, 'self.operator == op',
+                   # left operand first
+                   'self.args == (obj1, obj2)',
+                   'self.uses_receiver is False'])
+        nm = '"*" + alias' if alias else '"#unary_operator_" + op'
+        c('UnaryOperator.__init__', name='expressions.UnaryOperator/%s' % (
+            'alias' if alias else 'symbol'),
+          params=dict(self=obj(E + 'UnaryOperator'), op=TStr, obj=TVal,
+                      alias=TStr if alias else None),
+          ensures=['self.name == %s' % nm, 'self.operator == op',
+                   'self.args == (obj,)', 'self.uses_receiver is False'])
+    c('IndexExpression.__init__',
+      params=dict(self=obj(E + 'IndexExpression'), value=TVal,
+                  args=tuple_of(TVal, 2)),
+      ensures=['self.name == "#indexer"',
+               'self.args == (value, args[0], args[1])',
+               'self.uses_receiver is False'])
+    for cls, nm in (('ListExpression', '#list'), ('MapExpression', '#map')):
+        c(cls + '.__init__', params=dict(self=obj(E + cls),
+                                         args=tuple_of(TVal, 3)),
+          ensures=['self.name == "%s"' % nm, 'self.args == args',
+                   'self.uses_receiver is False'])
+    c('GetContextValue.__init__',
+      params=dict(self=obj(E + 'GetContextValue'), path=TVal),
+      ensures=['self.name == "#get_context_data"', 'self.args == (path,)',
+               'self.path == path', 'self.uses_receiver is False'])
+    c('Function.__init__', params=dict(self=obj(E + 'Function'), name=TStr,
+                                       args=tuple_of(TVal, 2)),
+      ensures=['self.name == name', 'self.args == args',
+               'self.uses_receiver is True'])
+    c('Constant.__call__',
+      params=dict(self=obj(E + 'Constant', value=TVal, uses_receiver=False),
+                  receiver=TVal, context=TVal, engine=TVal),
+      ensures=['result == self.value', 'len(calls) == 0'])
+    c('Wrap.__call__',
+      params=dict(self=obj(E + 'Wrap', expr=TVal, uses_receiver=False),
+                  receiver=TVal, context=TVal, engine=TVal),
+      ensures=['len(calls) == 1 and calls[0][0] == "call" and '
+               'calls[0][1][0] == self.expr and calls[0][1][1] == receiver '
+               'and calls[0][1][2] == context and calls[0][1][3] == engine '
+               'and result == calls[0][2]'])
+    c('MappingRuleExpression.__call__',
+      params=dict(self=obj(E + 'MappingRuleExpression', source=TVal,
+                           destination=TVal, uses_receiver=False),
+                  receiver=TVal, context=TVal, engine=TVal),
+      ensures=[
+          # source before destination, each once, same receiver / context
+          'len([e for e in calls if e[0] == "call"]) == 2',
+          'calls[0][1][0] == self.source and calls[1][1][0] == '
+          'self.destination',
+          'all([e[1][1] == receiver and e[1][2] == context and e[1][3] == '
+          'engine for e in calls if e[0] == "call"])'])
+    return cs
+
+
+def setup_nodes(world):
+    setup(world)
+    world.opaque_ctor('MappingRule')
